@@ -94,6 +94,8 @@ class FaultyLark:
 
     def parse(self, text, *a, **kw):
         ParseSeam.parses += 1
+        from . import simpool as _sp
+        _sp.fire_stale_timers()         # simulated clock of a pool worker: timers left armed by earlier tasks expire now
         if isinstance(text, str):
             kind = ParseSeam.plan.get(text_key(text))
             if kind is not None:
